@@ -276,6 +276,15 @@ def known(case, verdict):
     dask.array.map_overlap then merges chunks on its own and refuses the chunk sizes xgcm announces (ValueError
     '... adjust_chunks specified with ...').  Only this refusal, only through an explicit map_overlap=True with a
     boundary width > 1 (the predefined operations have widths <= 1 and cannot reach it)."""
+    if case.get("kind") == "simple" and str(case.get("op", "")).startswith("ufunc2") and case.get("boundary") == "periodic":
+        # C06-dask-wrap-wider-than-axis: dask.array.pad(mode="wrap") returns a wrong result (too short / wrong
+        # values) when a pad width exceeds the length of the axis, numpy's does not; xgcm hands the periodic rule
+        # to whichever backs the data.  Only user ufuncs can ask for such widths (predefined widths are <= 1).
+        layout = Layout(case["layout"]["axes"], [tuple(e) for e in case["layout"]["extra"]])
+        for n, (lo, hi) in case["bw2"].items():
+            dim = layout.axis(n)["coords"][case["pos_all"][n]]
+            if max(lo, hi) > sum(case["chunks"][dim]):
+                return "C06-dask-wrap-wider-than-axis"
     d = (verdict.get("detail") or {}).get("refused")
     if case.get("kind") != "simple" or case.get("op") != "ufunc2_overlap" or not d:
         return None
